@@ -1146,6 +1146,8 @@ def solve(objfun, x0, h=None, lh=None, prox_uh=None, argsf=(), argsh=(), argspro
         if params("restarts.increase_npt"):
             npt += params("restarts.increase_npt_amt")
             npt = min(npt, params("restarts.max_npt"))
+            if not params("init.random_initial_directions"):
+                npt = min(npt, (n + 1) * (n + 2) // 2)  # coordinate initial directions cannot provide more points
 
         if do_logging:
             module_logger.info("Restarting from finish point (f = %g) after %g function evals; using rhobeg = %g and rhoend = %g"
